@@ -25,6 +25,11 @@ def check(ctx):
     r033_generated(ctx)
     ctx.rule("R03.4", "the base rates are scalar valued for single-member / single-weighted-row groups (shared with C14 R14.4)")
     c14.r144_scalar(ctx, rule="R03.4")
+    ctx.rule("R03.5", "the base rates themselves are the documented confusion-matrix entries / weighted means (shared with "
+                      "C14 R14.1, R14.2, R14.5)")
+    c14.r141_siblings(ctx, rule="R03.5")
+    c14.r142_labels(ctx, rule="R03.5")
+    c14.r145_formulas(ctx, rule="R03.5")
 
 
 def r031_wiring(ctx, rule, only_weights=False):
@@ -168,6 +173,17 @@ def r033_generated(ctx):
     by_name = {e.data["base_node"].id: e for e in st}
     okp = len(st) == 3 and all(e.data["key"] is k and e.data["value"] is v for e in st) and \
         lev.data["iter"].op == "call" and lev.data["iter"].args[0].args[0] is Pc["other_params"]
+    # the three containers are created afresh by this call (no state shared between calls)
+    fresh = True
+    for e in st:
+        root = root_of(e.data["obj"])
+        fresh = fresh and ((root.op == "dict" and not root.args[0]) or (root.op == "call" and root.args[0] is glob("builtins.dict") and not root.args[1]))
+    from ..lifecycle import self_stores
+    writes = self_stores(rc)
+    ctx.ob("R03.3", fqc, lev.node, fresh and not writes, "the parameter dictionaries are created by each call and calling the "
+           "metric writes no state of the metric object (a call does not depend on earlier calls)" if fresh and not writes else
+           "a parameter dictionary is shared with the metric object's state: a call without sample_weight reuses the weights of "
+           "an earlier call", construct="no state shared between calls")
     if okp:
         cA = A2.C.canon(A2.at(st[0], "K in self._sample_param_names", {"K": k}))
         cB = A2.C.canon(A2.at(st[0], "K in parameters_for_transforms", {"K": k}))
